@@ -11,7 +11,7 @@ cleanup() { git -C /repo worktree remove --force "$wt" 2>/dev/null; rm -rf "$wt"
 cp "$src/demo.py" "$wt/demo.py"
 ( cd "$wt" && PYTHONPATH="$wt" MPLBACKEND=Agg /venv/bin/python demo.py >/dev/null 2>&1 ); without=$?
 ( cd "$wt" && git apply "$src/mutant.diff" ) || { echo "patch does not apply"; cleanup; exit 2; }
-( cd "$wt" && PYTHONPATH="$wt" MPLBACKEND=Agg /venv/bin/python demo.py >/tmp/confirm_demo.out 2>&1 ); with=$?
+( cd "$wt" && PYTHONPATH="$wt" MPLBACKEND=Agg /venv/bin/python demo.py >"$wt.demo.out" 2>&1 ); with=$?
 # the pinned suite has one randomly flaky pair (tests/drawing/test_draw.py::test_issue_515 draws an unseeded layout and,
 # when it overflows, makes the draw doctest fail too) - also on the unchanged tree; retry up to 4 times for a clean run
 for attempt in 1 2 3 4; do
@@ -23,7 +23,7 @@ echo "demo without change: exit $without; with change: exit $with; suite: $(echo
 if [ $without -eq 0 ] && [ $with -ne 0 ] && [ $suite_rc -eq 0 ]; then
   mkdir -p "$here/seeded/$id"
   cp "$src/mutant.diff" "$here/seeded/$id/patch.diff"; cp "$src/demo.py" "$here/seeded/$id/demo.py"
-  /venv/bin/python - "$id" "$prop" "$src" "$here" "$(tail -3 /tmp/confirm_demo.out | tr '\n' ' ' | cut -c1-300)" "$(echo "$suite" | head -1)" <<'PY'
+  /venv/bin/python - "$id" "$prop" "$src" "$here" "$(tail -3 "$wt.demo.out" | tr '\n' ' ' | cut -c1-300)" "$(echo "$suite" | head -1)" <<'PY'
 import json, sys
 sid, prop, src, here, demo_out, suite = sys.argv[1:7]
 meta = {"id": sid, "breaks_property": prop, "written_by": "independent sub-agent given only the property text and a scratch worktree",
@@ -34,7 +34,7 @@ json.dump(meta, open("%s/seeded/%s/meta.json" % (here, sid), "w"), indent=1)
 PY
   echo "stored seeded/$id"
 else
-  echo "NOT CONFIRMED"; tail -5 /tmp/confirm_demo.out
+  echo "NOT CONFIRMED"; tail -5 "$wt.demo.out"
 fi
-rm -f /tmp/confirm_demo.out
+rm -f "$wt.demo.out"
 cleanup
